@@ -1,12 +1,13 @@
 #!/bin/bash
 # tools/reeval_all.sh [names...] — re-run the quick checks of each stored seed's own property and its neighbours
 # against the current /repo + /verif; rewrites seeded/<name>/meta.json; rebuilds the harness at the end.
-declare -A REL=( [C01]="C01 C03 C05" [C02]="C02 C01" [C03]="C03 C04 C17" [C04]="C04 C03" [C05]="C05 C04 C03" [C06]="C06 C08 C16" [C07]="C07" [C08]="C08 C16" [C09]="C09 C02" [C10]="C10" [C11]="C11" [C12]="C12 C14" [C13]="C13 C15" [C14]="C14 C12" [C15]="C15 C13" [C16]="C16 C08" [C17]="C17 C08 C03" [C18]="C18" [neutral]="C01 C03 C04 C05 C06 C17" )
+declare -A REL=( [C01]="C01 C03 C05 C07" [C02]="C02 C01" [C03]="C03 C04 C17" [C04]="C04 C03" [C05]="C05 C04 C03" [C06]="C06 C08 C16" [C07]="C07" [C08]="C08 C16" [C09]="C09 C02" [C10]="C10" [C11]="C11" [C12]="C12 C14" [C13]="C13 C15" [C14]="C14 C12" [C15]="C15 C13" [C16]="C16 C08" [C17]="C17 C08 C03" [C18]="C18" [neutral]="C01 C03 C04 C05 C06 C17" )
 export MUTANT_NO_REBUILD=1
 cd /verif/seeded
 NAMES="${*:-$(ls -d */ | tr -d /)}"
 for n in $NAMES; do
   p=${n%%-*}
+  if grep -q '"superseded"' /verif/seeded/$n/meta.json 2>/dev/null; then echo "### $n (superseded, kept with its results at the old commit)"; continue; fi
   echo "### $n"
   /verif/tools/seed_reeval.sh $n "${REL[$p]}" 2>&1 | grep -E "rc=|mutant.sh" | cut -c1-230
 done
